@@ -3478,12 +3478,19 @@ def _b_sorted(I, a, k, n):
 def _b_any(I, a, k, n, want=True):
     v = a[0]
     if isinstance(v, SList):
-        if v.ety != 'bool':
-            I.undecided('any/all over non-bool symbolic list', n)
+        if v.ety == 'bool':
+            tr = lambda t: t
+        elif v.ety == 'str':
+            ne = z3.Function('str_nonempty', StrSort, z3.BoolSort())
+            tr = lambda t: ne(t)
+        elif v.ety == 'int':
+            tr = lambda t: t != 0
+        else:
+            I.undecided('any/all over a symbolic list of %r' % (v.ety,), n)
         b = z3.Bool(I.ex.fresh_name('any' if want else 'all'))
         w = z3.Int(I.ex.fresh_name('w'))
         q = z3.Int('q!anyall')
-        hit = (lambda t: t) if want else (lambda t: z3.Not(t))
+        hit = (lambda t: tr(t)) if want else (lambda t: z3.Not(tr(t)))
         # b <=> exists hit ; result = b (any) or not b (all)
         I.ex.assume(z3.Implies(b, z3.And(w >= 0, w < v.len,
                                           hit(z3.Select(v.arr, w)))))
